@@ -125,3 +125,31 @@ extern "C" void h_k1_light()
     }
   VWITNESS(exp == K1REC - 1 && !user_clock && ts_now != ~0ull);      // the last record is held back
 }
+
+// ---- K4 on the real BackendWorker::_check_frontend_queues_and_cached_transit_events_empty: "nothing queued or buffered
+// anywhere" - the condition under which invalid loggers / thread contexts may be freed (C17, C20).  The refresh of the
+// context cache from the registry (_update_active_thread_contexts_cache) is a no-op hook: the cache is given.
+extern "C" void vh_update_cache(BackendWorker*) {}
+static ThreadContext* g_tcs4[4];
+extern "C" void h_k4()
+{
+  new (&g_bw.b._options) BackendOptions();
+  new (&g_bw.b._active_thread_contexts_cache) std::vector<ThreadContext*>(); g_bw.b._active_thread_contexts_cache.reserve(4);
+  bk_init_logger(0, 0);
+  bool queued[NCTX]; uint32_t buffered[NCTX]; bool any = false;
+  for (uint32_t c = 0; c < NCTX; c++)
+  {
+    bk_init_context(c, vnd_bool() ? 0 : QCAP - 32); bk_static_ring(c);     // queue positions at the start or just before the wrap
+    queued[c] = vnd_bool();
+    if (queued[c]) VASSERT(bk_log(c, 0, 5));                               // one record written by the real log_statement, not yet read
+    buffered[c] = static_cast<uint32_t>(vnd_range(0, 1));
+    if (buffered[c]) { TransitEvent* te = teb_at(c)->back(); te->timestamp = 7; te->macro_metadata = &MD_LOG; te->logger_base = logger_at(0); teb_at(c)->push_back(); }
+    any = any || queued[c] || buffered[c] != 0;
+  }
+  auto& v = g_bw.b._active_thread_contexts_cache;
+  for (uint32_t i = 0; i < NCTX; i++) g_tcs4[i] = ctx_at(i);
+  v._M_impl._M_start = g_tcs4; v._M_impl._M_finish = g_tcs4 + NCTX; v._M_impl._M_end_of_storage = g_tcs4 + 4;
+  bool empty = bw()._check_frontend_queues_and_cached_transit_events_empty();
+  VASSERT(empty == !any);               // true only if NO queue holds a record and NO ring holds an event, over ALL contexts
+  VWITNESS(!empty && !queued[0] && buffered[0] == 0 && NCTX == 2);
+}
